@@ -29,6 +29,9 @@ type TownOpts struct {
 	// any more (deleted, of a kind servitor does not show, malformed, gone). Only for sessions whose
 	// oracles do not model the thread above a post.
 	DeadParents bool
+	// QueryPages: the pages of every collection of a host live under one path and differ in the
+	// query only (cursor-style paging)
+	QueryPages bool
 }
 
 type TLink struct {
@@ -531,7 +534,11 @@ func (tn *Town) serveList(host, url string, items []CItem) {
 			if j > len(items) {
 				j = len(items)
 			}
-			l.Pages = append(l.Pages, &CPage{Items: items[i:j], Remote: t.Chance(1, 2), URL: fmt.Sprintf("https://%s/c/pg-%d", host, tn.f.next())})
+			pageURL := fmt.Sprintf("https://%s/c/pg-%d", host, tn.f.next())
+			if tn.Opts.QueryPages {
+				pageURL = fmt.Sprintf("https://%s/c/page?max_id=%d", host, tn.f.next())
+			}
+			l.Pages = append(l.Pages, &CPage{Items: items[i:j], Remote: t.Chance(1, 2), URL: pageURL})
 		}
 	}
 	tn.f.Install(l)
